@@ -109,6 +109,13 @@ func genC15(cfg Config, ws *WorldSet, i, perWorld int) C15Case {
 			steps = append(steps, Step{Op: "write", Path: d + "/.gitattributes", Data: []byte("*.pb.go linguist-generated=true\n*.png binary\n")},
 				Step{Op: "write", Path: d + "/.gitignore", Data: []byte("*.test\n/bin/\n")})
 		}
+		// ... and what a project keeps there besides: a Makefile, a README, and in the
+		// package directory a doc.go holding the go:generate directive
+		steps = append(steps, Step{Op: "write", Path: "{W}/mod/Makefile", Data: []byte("generate:\n\tgo generate ./...\n")},
+			Step{Op: "write", Path: filepath.Dir(iv.OutPath) + "/README.md", Data: []byte("# Generated code\n\nFiles ending in .gen.go are generated; do not edit.\n")})
+		if filepath.Dir(iv.OutPath) == pkgDir {
+			steps = append(steps, Step{Op: "write", Path: pkgDir + "/doc.go", Data: []byte("// Package " + pkgNameOf(world.Files[world.Setup]) + " holds the copy functions.\npackage " + pkgNameOf(world.Files[world.Setup]) + "\n\n//go:generate convergen " + filepath.Base(setup) + "\n")})
+		}
 	}
 	if strings.Contains(kind, "other-pkg") {
 		steps = append(steps, Step{Op: "write", Path: "{W}/mod/zz_elsewhere/keep.go", Data: []byte("package zz_elsewhere\n")})
